@@ -78,6 +78,7 @@ func ClassifyGoOutput(out string, vet bool) []string {
 	if set["redeclared"] {
 		delete(set, "type")
 		delete(set, "selector")
+		delete(set, "unused")
 	}
 	res := []string{}
 	for k := range set {
@@ -329,6 +330,7 @@ func CheckC13(run *Run) {
 	run.Prepare()
 	reqs := append(append(FeatureCatalogue(), RuntimeCatalogue()...), BuildCatalogue()...)
 	reqs = append(reqs, RawRequest())
+	reqs = append(reqs, HostileCatalogue()...)
 	nRandom := 12
 	if run.Tier == "thorough" {
 		nRandom = 300
